@@ -239,7 +239,59 @@ Fixpoint to_sexp (v : value) : sexp :=
   | VSym n => SSym false false n
   | VPair h t => SPair (to_sexp h) (to_sexp t)
   | VArr l => SArr false (map to_sexp l)
-  | VHash _ => SHashEmpty       (* hashes are not read back as data (the property evaluates them) *)
+  | VHash kvs =>                 (* read as data: the list (hash k: v "s" : v ...) ; {} is the empty hash *)
+      match kvs with
+      | [] => SHashEmpty
+      | _ => SPair (sym str_hash)
+               ((fix items (l : list (value * value)) : sexp :=
+                   match l with
+                   | [] => SNull
+                   | (k, x) :: r =>
+                       match k with
+                       | VSym n => SPair (SSym true false n) (SPair (to_sexp x) (items r))
+                       | VStr s => SPair (SStr false (map item_rune s)) (SPair (sym [58]) (SPair (to_sexp x) (items r)))
+                       | _ => SPair (to_sexp k) (SPair (sym [58]) (SPair (to_sexp x) (items r)))
+                       end
+                   end) kvs)
+      end
+  end.
+
+(* ---- evaluated values of the JSON-like fragment ---- *)
+
+Inductive jkey : Type := JKSym (n : list Z) | JKStr (s : list Z).
+
+Inductive jvalue : Type :=
+| JInt (z : Z) | JUint (z : Z) | JFloat (sci : bool) (bits : Z) | JNaN | JBool (b : bool) | JNil
+| JStr (s : list Z) | JArr (l : list jvalue) | JHash (kvs : list (jkey * jvalue)).
+
+Definition jkey_eqb (a b : jkey) : bool :=
+  match a, b with
+  | JKSym x, JKSym y => list_eqb x y
+  | JKStr x, JKStr y => list_eqb x y
+  | _, _ => false
+  end.
+
+(* hashutils.go HashSet on the hash under construction: an existing key keeps its place *)
+Fixpoint jset (k : jkey) (v : jvalue) (h : list (jkey * jvalue)) : list (jkey * jvalue) :=
+  match h with
+  | [] => [(k, v)]
+  | (k', v') :: r => if jkey_eqb k k' then (k', v) :: r else (k', v') :: jset k v r
+  end.
+
+(* the original value as the evaluation sees it *)
+Definition jk_of (k : value) : jkey :=
+  match k with VSym n => JKSym n | VStr s => JKStr (map item_rune s) | _ => JKStr [] end.
+
+Fixpoint jv_of (v : value) : jvalue :=
+  match v with
+  | VInt z => JInt z
+  | VUint z => JUint z
+  | VFloat b sci c => match c with FNaN => JNaN | FInf _ => JFloat false b | FFin _ => JFloat sci b end
+  | VBool b => JBool b
+  | VStr s => JStr (map item_rune s)
+  | VArr l => JArr (map jv_of l)
+  | VHash kvs => JHash (map (fun kv => (jk_of (fst kv), jv_of (snd kv))) kvs)
+  | _ => JNil
   end.
 
 (* ---- literal conversion: token -> value (parser.go ParseExpression, cases TokenBool .. TokenFloat) ---- *)
@@ -286,6 +338,59 @@ Definition atom_value (t : token) : option rvalue :=
   end.
 
 End Atom.
+
+(* ---- evaluation of a JSON-like expression: self-evaluating literals, array literals, and the hash builder
+        (builders.go / hashutils.go MakeHash on the arguments of (hash k: v "s" : v ...): a colon-symbol k: is the
+        symbol key k, a string key is followed by the symbol : which is skipped, keys are set in order) ---- *)
+Section Eval.
+Variable parse_float : list Z -> option Z.
+
+Fixpoint eval_json_like (e : sexp) : option jvalue :=
+  match e with
+  | SInt z => Some (JInt z)
+  | SUint z => Some (JUint z)
+  | SFloat sci text =>
+      if list_eqb text str_NaN then Some JNaN
+      else match parse_float_text parse_float text with Some b => Some (JFloat sci b) | None => None end
+  | SBool b => Some (JBool b)
+  | SNull => Some JNil
+  | SStr _ s => Some (JStr s)
+  | SArr false l =>
+      option_map JArr
+        ((fix elems (l : list sexp) : option (list jvalue) :=
+            match l with
+            | [] => Some []
+            | x :: r => match eval_json_like x, elems r with
+                        | Some jx, Some jr => Some (jx :: jr)
+                        | _, _ => None
+                        end
+            end) l)
+  | SHashEmpty => Some (JHash [])
+  | SPair (SSym false false h) items =>
+      if list_eqb h str_hash then
+        option_map JHash
+          ((fix pairs (it : sexp) (acc : list (jkey * jvalue)) : option (list (jkey * jvalue)) :=
+              match it with
+              | SNull => Some acc
+              | SPair (SSym true false n) (SPair x rest) =>
+                  match eval_json_like x with
+                  | Some jx => pairs rest (jset (JKSym n) jx acc)
+                  | None => None
+                  end
+              | SPair (SStr _ s) (SPair (SSym false false c) (SPair x rest)) =>
+                  if list_eqb c [58] then
+                    match eval_json_like x with
+                    | Some jx => pairs rest (jset (JKStr s) jx acc)
+                    | None => None
+                    end
+                  else None
+              | _ => None
+              end) items [])
+      else None
+  | _ => None
+  end.
+
+End Eval.
 
 (* ---- reading a whole text (parser.go ParseTokens on WholeText) ---- *)
 
